@@ -558,28 +558,4 @@ func init() {
 
 func c06WorkerEntry(args []string) { c06Worker(args) }
 
-var readerV3 = regexp.MustCompile(`reader\d? v3[ .]`)
-
-func init() {
-	// A reader holding the latest committed version is served through the fast index (Get / Has / Iterator),
-	// which describes whatever version is latest at the moment of the lookup: while the writer commits the next
-	// version the reader sees the new version's data, or a key removed by it as absent.
-	rawMatchers["c06_latest_version_reads_through_live_fast_index"] = func(prop, text string) bool {
-		return strings.Contains(text, "fast=true") && readerV3.MatchString(text) && !strings.Contains(text, "error") && !strings.Contains(text, "writer:")
-	}
-	// Node.clone clears the child pointers of a persisted (cached, shared) node while readers of a committed
-	// version follow them.
-	rawMatchers["c06_race_node_clone_vs_child_access"] = func(prop, text string) bool {
-		if !strings.HasPrefix(text, "data race ") {
-			return false
-		}
-		sig := strings.TrimPrefix(text, "data race ")
-		parts := strings.Split(sig, " <-> ")
-		if len(parts) != 2 {
-			return false
-		}
-		isClone := func(s string) bool { return s == "(*Node).clone" }
-		isChild := func(s string) bool { return s == "(*Node).getLeftNode" || s == "(*Node).getRightNode" }
-		return (isClone(parts[0]) && isChild(parts[1])) || (isClone(parts[1]) && isChild(parts[0]))
-	}
-}
+func c06WorkerEntry(args []string) { c06Worker(args) }
